@@ -176,6 +176,12 @@ pub assume_specification<T: PartialEq, A: std::alloc::Allocator>[ Vec::<T, A>::d
         forall|i: int| 0 <= i < final(v)@.len() - 1 ==> #[trigger] final(v)@[i] != final(v)@[i + 1],
         exists|f: Seq<int>| #[trigger] subseq_via(final(v)@, old(v)@, f);
 
+/// meaning of vstd's (uninterpreted) `into_iter_remaining` for a Vec passed by value: its elements in order (trusted bridge)
+#[verifier::external_body]
+pub broadcast proof fn axiom_yielded_vec<T>(v: Vec<T>)
+    ensures #[trigger] yielded::<T, Vec<T>>(v) == v@
+{}
+
 #[verifier::external_body]
 pub fn __vx_collect<T, I: IntoIterator<Item = T>>(i: I) -> (r: Vec<T>)
     ensures r@ == yielded::<T, I>(i)
